@@ -29,11 +29,11 @@ type replayFile struct {
 
 var (
 	replayPath string
-	replay   *replayFile
-	seq      int
-	Failures []string
-	Observed []string
-	Covered  = map[string]bool{}
+	replay     *replayFile
+	seq        int
+	Failures   []string
+	Observed   []string
+	Covered    = map[string]bool{}
 )
 
 func load() {
@@ -82,14 +82,14 @@ func next(name string) uint64 {
 // Symbolic reports whether the harness runs under the symbolic engine.
 func Symbolic() bool { return false }
 
-func Bool(name string) bool   { return next(name) != 0 }
-func U8(name string) uint8    { return uint8(next(name)) }
-func U16(name string) uint16  { return uint16(next(name)) }
-func U32(name string) uint32  { return uint32(next(name)) }
-func U64(name string) uint64  { return next(name) }
-func I32(name string) int32   { return int32(uint32(next(name))) }
-func I64(name string) int64   { return int64(next(name)) }
-func Int(name string) int     { return int(int64(next(name))) }
+func Bool(name string) bool  { return next(name) != 0 }
+func U8(name string) uint8   { return uint8(next(name)) }
+func U16(name string) uint16 { return uint16(next(name)) }
+func U32(name string) uint32 { return uint32(next(name)) }
+func U64(name string) uint64 { return next(name) }
+func I32(name string) int32  { return int32(uint32(next(name))) }
+func I64(name string) int64  { return int64(next(name)) }
+func Int(name string) int    { return int(int64(next(name))) }
 
 // Choice returns an arbitrary value in [0,n); the engine forks one path per value.
 func Choice(name string, n int) int {
